@@ -35,6 +35,13 @@ func c04GenScen(h *H) *c04Scen {
 	}
 	if sc.kind != "sel" {
 		add("info", "")
+		if r.Intn(6) == 0 {
+			// a server that repeats the header block: the handler Do installs for the column info hands over
+			// one value, the third block finds the channel full - it must still notice the caller's context
+			for k := 1 + r.Intn(3); k > 0; k-- {
+				add("info", "")
+			}
+		}
 	}
 	for k := r.Intn(4); k > 0; k-- {
 		switch r.Intn(6) {
